@@ -185,6 +185,37 @@ def _phase_client(scn, w, broker, res):
         elif not injected_fail:
             res.violate(PROP, "connect", "failed-without-fault", repr(t.exception())[:200])
         res.nontrivial_key = "C18:" + w.elog.digest()[:24]
+        # the application retries on the SAME object once the broker is reachable again: a connect that succeeds
+        # must subscribe for all five commands, whatever the failed attempt left behind
+        w.tapes = Tapes({})
+        t2 = loop.create_task(tr.connect())
+        loop.run_until_idle(100)
+        if t2.done() and t2.exception() is None:
+            res.probes["retry_after_failed_connect"] += 1
+            deaf = []
+            for cmd in range(5):
+                child = 255 if cmd in (3, 4) else 1
+                ok = broker.inject(f"{inp}/9/{child}/{cmd}/0/1", b"7")
+                tr2 = loop.create_task(tr.read())
+                loop.run_until_idle(10)
+                got = None
+                if tr2.done() and tr2.exception() is None:
+                    got = tr2.result().rstrip("\n")
+                elif not tr2.done():
+                    tr2.cancel()
+                    loop.run_until_idle(0)
+                if not ok or got != f"9;{child};{cmd};0;1;7":
+                    deaf.append((cmd, ok, got))
+            if deaf:
+                res.violate(PROP, "reconnect", "deaf-after-retried-connect",
+                            f"(command, broker had a matching subscription, line read): {deaf}")
+            t3 = loop.create_task(tr.disconnect())
+            loop.run_until_idle(100)
+            if not t3.done() or t3.exception() is not None:
+                res.violate(PROP, "disconnect", f"raised:{type(t3.exception()).__name__ if t3.done() else 'hang'}:after-retry", "")
+        elif not t2.done():
+            t2.cancel()
+            loop.run_until_idle(0)
         return
     t0 = loop.time()
     results = []
